@@ -21,17 +21,29 @@ from sexp import Atom, opt
 
 MODEL = "glyphorder"
 SHRINKABLE = True
-RULE = ("histories of newGlyph/insertGlyph/delete/rename in 1-4 layers (+ glyphOrder/lib assignments, newLayer, delLayer, "
-        "save-and-reopen) over fonts that are new, loaded from a generated UFO 3/UFO 2, or deserialised, with empty, partial, "
-        "complete, superset, disjoint or duplicate-carrying start orders; after every op font.glyphOrder, "
-        "font.lib.get('public.glyphOrder') and every layer's key set are compared with the model; non-trivial = at least one "
-        "successful glyph-set op whose outcome depended on cross-layer existence or on the current content of the order "
-        "(delete while another layer keeps the name, delete of the last copy, rename onto a name in the order, rename whose "
-        "old name stays, re-creation of a name present in the order); distinct = distinct (origin, init, ops)")
+RULE = ("histories of newGlyph/insertGlyph/delete/rename in 1-4 layers, through the layer or through the font "
+        "(font.newGlyph / font.insertGlyph / del font[name], also after the default layer was changed or deleted), "
+        "+ glyphOrder/lib assignments, newLayer, delLayer (default layer included), layer renaming, layerOrder assignment, "
+        "defaultLayer assignment, layer.holdNotifications()/releaseHeldNotifications() around blocks of such operations "
+        "(nested, overlapping on several layers, with Layer.insertGlyph's own bracket inside), layer.disableNotifications()/"
+        "enableNotifications(), font.holdNotifications()/releaseHeldNotifications(), save-and-reopen, over fonts that are new, "
+        "loaded from a generated UFO 3/UFO 2, or deserialised, with empty, partial, complete, superset, disjoint or "
+        "duplicate-carrying start orders; after every op font.glyphOrder, font.lib.get('public.glyphOrder'), every layer's "
+        "key set, hold and disable state, the default layer and font.keys() are compared with the model; non-trivial = at "
+        "least one successful glyph-set op whose outcome depended on cross-layer existence or on the current content of the "
+        "order (delete while another layer keeps the name, delete of the last copy, rename onto a name in the order, rename "
+        "whose old name stays, re-creation of a name present in the order) or a release that delivered at least two held "
+        "notifications; distinct = distinct (origin, init, ops)")
 ASSUMPTIONS = [
-    "no user-level hold/disable of the layers' or the font's notifications (delivery itself is C04's subject)",
+    "holds and disables are those of BaseObject.holdNotifications()/disableNotifications() on a layer or on the font (keys "
+    "(None, object, None) of the centre); holds of one notification name, of the layer set or of the whole centre are not "
+    "exercised (delivery itself is C04's subject)",
+    "while a layer's notifications are DISABLED the font is not told about its glyphs: the property's sentences are not "
+    "demanded of operations on a disabled layer, nor of a release that happens while the layer is disabled",
     "glyph order values are lists of strings (or None); glyph and layer names are non-empty strings",
-    "the default layer is never deleted; layers are not renamed; no external changes / reload",
+    "a layer is not renamed onto the name of another layer, nor while its notifications are held or disabled (the layer set "
+    "then keeps the old key); no external changes / reload; nothing is saved once the default layer was deleted or re-assigned or "
+    "a layer renamed (`save` is then an observation only)",
     "operations address glyphs through layer[name]; glyph objects that were replaced or deleted (no longer in the font) are "
     "not renamed afterwards (a replaced loaded glyph stays observed by its layer: finding F16, C11's subject)",
     "renaming a glyph onto a name that exists in the same layer silently replaces that glyph (code as it is); only the name "
@@ -129,6 +141,10 @@ class _Track(object):
             self.seen = set(init["lib"] or [])
         for gs in self.layers.values():
             self.seen |= gs
+        self.held = {}
+        self.disabled = {}
+        self.fontheld = 0
+        self.lastren = {}        # layer -> the name the last successful renaming in it led to
 
     def union(self):
         u = set()
@@ -136,8 +152,16 @@ class _Track(object):
             u |= gs
         return u
 
+    def quiet(self, L):
+        return not self.held.get(L) and not self.disabled.get(L)
+
     def apply(self, op):
         k = op[0]
+        if k in ("fontNewGlyph", "fontInsertGlyph", "fontDelGlyph"):
+            if self.default is None:
+                return
+            op = [k[4].lower() + k[5:], self.default] + list(op[1:])
+            k = op[0]
         if k in ("newGlyph", "insertGlyph") and op[1] in self.layers:
             self.layers[op[1]].add(op[2])
             self.seen.add(op[2])
@@ -147,10 +171,40 @@ class _Track(object):
             self.layers[op[1]].discard(op[2])
             self.layers[op[1]].add(op[3])
             self.seen.add(op[3])
+            self.lastren[op[1]] = op[3]
         elif k == "newLayer":
             self.layers.setdefault(op[1], set())
         elif k == "delLayer":
-            self.layers.pop(op[1], None)
+            if op[1] in self.layers:
+                self.layers.pop(op[1], None)
+                self.held.pop(op[1], None)
+                self.disabled.pop(op[1], None)
+                if self.default == op[1]:
+                    self.default = None
+        elif k == "renameLayer":
+            o, n = op[1], op[2]
+            if o in self.layers and n not in self.layers and self.quiet(o):
+                self.layers = {(n if x == o else x): v for x, v in self.layers.items()}
+                if self.default == o:
+                    self.default = n
+        elif k == "setLayerOrder":
+            if sorted(op[1]) == sorted(self.layers):
+                self.layers = {n: self.layers[n] for n in op[1]}
+        elif k == "setDefault":
+            if op[1] in self.layers:
+                self.default = op[1]
+        elif k == "holdLayer" and op[1] in self.layers:
+            self.held[op[1]] = self.held.get(op[1], 0) + 1
+        elif k == "releaseLayer" and self.held.get(op[1]):
+            self.held[op[1]] -= 1
+        elif k == "disableLayer" and op[1] in self.layers:
+            self.disabled[op[1]] = self.disabled.get(op[1], 0) + 1
+        elif k == "enableLayer" and self.disabled.get(op[1]):
+            self.disabled[op[1]] -= 1
+        elif k == "holdFont":
+            self.fontheld += 1
+        elif k == "releaseFont" and self.fontheld:
+            self.fontheld -= 1
         elif k in ("setOrder", "setLib"):
             self.seen |= set(op[1] or [])
 
@@ -166,7 +220,119 @@ def _pick_layer(rng, tr, nonempty=False):
     return rng.choice(names)
 
 
+def _gen_layer_op(rng, tr, pool):
+    """layer-set operations, holds and disables, font-level glyph operations"""
+    names = sorted(tr.layers)
+    r = rng.random()
+    heldnow = sorted(n for n in names if tr.held.get(n))
+    disnow = sorted(n for n in names if tr.disabled.get(n))
+    if r < 0.22:
+        if heldnow and rng.random() < 0.5:
+            return ["holdLayer", rng.choice(heldnow)]                  # nested
+        return ["holdLayer", rng.choice(names) if rng.random() < 0.96 else "nolayer"]
+    if r < 0.36:
+        if heldnow and rng.random() < 0.9:
+            return ["releaseLayer", rng.choice(heldnow)]
+        return ["releaseLayer", rng.choice(names + ["nolayer"])]      # usually KeyError: nothing is held
+    if r < 0.42:
+        return ["disableLayer", rng.choice(names)]
+    if r < 0.48:
+        if disnow and rng.random() < 0.9:
+            return ["enableLayer", rng.choice(disnow)]
+        return ["enableLayer", rng.choice(names)]
+    if r < 0.56:
+        quiet = [n for n in names if tr.quiet(n)]
+        free = [n for n in LAYERS + ["extra", "renamed"] if n not in tr.layers]
+        if quiet and free and rng.random() < 0.9:
+            return ["renameLayer", rng.choice(quiet), rng.choice(free)]
+        if quiet:
+            o = rng.choice(quiet)
+            return ["renameLayer", o, o]
+        return ["renameLayer", "nolayer", "x"]
+    if r < 0.62:
+        perm = list(names)
+        rng.shuffle(perm)
+        q = rng.random()
+        if q < 0.08 and perm:
+            perm = perm[:-1]
+        elif q < 0.16 and perm:
+            perm = perm[:-1] + [perm[0]]
+        elif q < 0.2:
+            perm = perm + ["nolayer"]
+        return ["setLayerOrder", perm]
+    if r < 0.68:
+        return ["setDefault", rng.choice(names) if rng.random() < 0.95 else "nolayer"]
+    if r < 0.72:
+        return ["holdFont"] if (not tr.fontheld or rng.random() < 0.3) else ["releaseFont"]
+    if r < 0.74:
+        return ["releaseFont"]
+    # font-level glyph operations
+    here = sorted(tr.layers.get(tr.default, ())) if tr.default is not None else []
+    others = sorted(tr.union() - set(here))
+    stale = sorted(tr.seen - tr.union())
+    q = rng.random()
+    if q < 0.4:
+        return ["fontNewGlyph", _weighted_name(rng, [(pool, 4), (others, 3), (stale, 3), (here, 2)], pool)]
+    if q < 0.6:
+        g = _weighted_name(rng, [(pool, 4), (others, 3), (stale, 2), (here, 2)], pool)
+        kind = rng.choice(["standalone", "standalone-rename", "otherfont"])
+        if kind == "standalone-rename":
+            return ["fontInsertGlyph", g, ["standalone", rng.choice(pool), True]]
+        if kind == "otherfont":
+            return ["fontInsertGlyph", g, ["otherfont", g, rng.random() < 0.5]]
+        return ["fontInsertGlyph", g, ["standalone", g, False]]
+    if here and rng.random() < 0.9:
+        return ["fontDelGlyph", rng.choice(here)]
+    return ["fontDelGlyph", rng.choice(pool)]
+
+
+def _gen_held_glyph_op(rng, tr, pool, L):
+    """a glyph operation inside a held block on layer L: few names, so that notifications repeat (are coalesced)
+    and names are deleted, re-created and renamed back and forth before anything is delivered"""
+    small = pool[:3]
+    here = sorted(tr.layers.get(L, ()))
+    r = rng.random()
+    if r < 0.3:
+        if rng.random() < 0.3:
+            g = rng.choice(small)
+            return ["insertGlyph", L, g, ["standalone", g, False], "layer"]
+        return ["newGlyph", L, rng.choice(small), "layer"]
+    if r < 0.62:
+        cands = [x for x in here if x in small] or here
+        if cands and rng.random() < 0.93:
+            return ["delGlyph", L, rng.choice(cands), "layer"]
+        return ["delGlyph", L, rng.choice(small), "layer"]
+    cands = [x for x in here if x in small] or here
+    last = tr.lastren.get(L)
+    if last in here and rng.random() < 0.4:
+        # go on renaming the glyph that was renamed last: a chain a -> b -> c inside the hold
+        fresh = [x for x in POOL + GHOSTS if x not in tr.seen and x not in tr.union()]
+        if fresh:
+            return ["rename", L, last, rng.choice(fresh)]
+    if cands and rng.random() < 0.95:
+        old = rng.choice(cands)
+        fresh = [x for x in pool if x not in tr.seen]
+        new = _weighted_name(rng, [(small, 5), (fresh, 3), (pool, 1)], pool)
+        return ["rename", L, old, new]
+    return ["rename", L, rng.choice(small), rng.choice(small)]
+
+
 def _gen_op(rng, tr, pool, origin):
+    if not tr.layers:
+        # every layer has been deleted
+        return rng.choice([["newLayer", rng.choice(LAYERS[:3])], ["fontNewGlyph", rng.choice(pool)],
+                           ["newGlyph", "nolayer", rng.choice(pool), "layer"], ["setDefault", "nolayer"],
+                           ["newLayer", rng.choice(LAYERS[:3])]])
+    heldnow = sorted(n for n in tr.layers if tr.held.get(n))
+    if heldnow:
+        # inside a held block: mostly glyph operations on the held layer, sometimes the release
+        q = rng.random()
+        if q < 0.17:
+            return ["releaseLayer", rng.choice(heldnow)]
+        if q < 0.72:
+            return _gen_held_glyph_op(rng, tr, pool, rng.choice(heldnow))
+    if rng.random() < 0.13:
+        return _gen_layer_op(rng, tr, pool)
     r = rng.random()
     L = _pick_layer(rng, tr, nonempty=(0.32 <= r < 0.82))
     here = sorted(tr.layers.get(L, ()))
@@ -229,10 +395,12 @@ def _gen_op(rng, tr, pool, origin):
             return ["newLayer", rng.choice(free)]
         return ["newLayer", rng.choice(sorted(tr.layers))]
     if r < 0.97:
-        cands = [n for n in sorted(tr.layers) if n != tr.default]
+        cands = [n for n in sorted(tr.layers) if n != tr.default or rng.random() < 0.25]
         if cands and rng.random() < 0.9:
             return ["delLayer", rng.choice(cands)]
         return ["delLayer", "nolayer"]
+    if tr.default is None:
+        return ["setDefault", rng.choice(sorted(tr.layers))] if tr.layers else ["newLayer", "foreground"]
     return ["save"]
 
 
@@ -279,10 +447,93 @@ def gen_case(rng, maxlen):
     return case
 
 
+def gen_held_case(rng, maxlen):
+    """a font with content and a start order, then one or two blocks `hold L … release L` made of glyph operations
+    on few names (and a few operations elsewhere), then some more history"""
+    case = gen_case(rng, 4)
+    tr = _Track(case.get("init"))
+    for op in case["ops"]:
+        tr.apply(op)
+    pool = sorted({g for gs in tr.layers.values() for g in gs} | set(rng.sample(POOL, 3)))
+    rng.shuffle(pool)
+    ops = list(case["ops"])
+    # make sure nothing is left held/disabled by the random prefix (half of the time)
+    if rng.random() < 0.5:
+        for L in sorted(tr.layers):
+            while tr.held.get(L):
+                op = ["releaseLayer", L]
+                ops.append(op)
+                tr.apply(op)
+            while tr.disabled.get(L):
+                op = ["enableLayer", L]
+                ops.append(op)
+                tr.apply(op)
+    for _ in range(rng.randint(1, 2)):
+        if not tr.layers:
+            break
+        L = rng.choice(sorted(tr.layers))
+        # give the layer something to delete and rename
+        for _ in range(rng.randint(0, 3)):
+            op = ["newGlyph", L, rng.choice(pool[:3]), "layer"]
+            ops.append(op)
+            tr.apply(op)
+        if rng.random() < 0.6:
+            kind = rng.choices(ORDER_KINDS, ORDER_WEIGHTS)[0]
+            op = ["setOrder", _start_order(rng, sorted(tr.union()), pool, kind)]
+            ops.append(op)
+            tr.apply(op)
+        op = ["holdLayer", L]
+        ops.append(op)
+        tr.apply(op)
+        if tr.layers[L] and rng.random() < 0.3:
+            # a pure chain of renamings x -> f1 -> f2 (-> f3) with other operations in between
+            x = rng.choice(sorted(tr.layers[L]))
+            fresh = [n for n in POOL + GHOSTS + ["f1", "f2", "f3"] if n not in tr.seen and n not in tr.union()]
+            rng.shuffle(fresh)
+            for nxt in fresh[:rng.randint(2, 3)]:
+                op = ["rename", L, x, nxt]
+                ops.append(op)
+                tr.apply(op)
+                x = nxt
+                if rng.random() < 0.4:
+                    others = [n for n in pool if n != x and n not in fresh]
+                    if others:
+                        op = rng.choice([["newGlyph", L, rng.choice(others), "layer"], ["delGlyph", L, rng.choice(others), "layer"]])
+                        ops.append(op)
+                        tr.apply(op)
+        for _ in range(rng.randint(0 if len(ops) > 2 and ops[-1][0] != "holdLayer" else 1, max(2, maxlen // 2))):
+            if L not in tr.layers:
+                break
+            q = rng.random()
+            if q < 0.8:
+                op = _gen_held_glyph_op(rng, tr, pool, L)
+            elif q < 0.93:
+                others = [n for n in sorted(tr.layers) if n != L]
+                op = _gen_held_glyph_op(rng, tr, pool, rng.choice(others)) if others else ["save"]
+            else:
+                op = _gen_op(rng, tr, pool, case["origin"])
+            ops.append(op)
+            tr.apply(op)
+        if L in tr.layers:
+            while tr.held.get(L) and rng.random() < 0.97:
+                op = ["releaseLayer", L]
+                ops.append(op)
+                tr.apply(op)
+    for _ in range(rng.randint(0, 3)):
+        op = _gen_op(rng, tr, pool, case["origin"])
+        ops.append(op)
+        tr.apply(op)
+    case["ops"] = ops
+    return case
+
+
 def generate(rng, tier):
-    n, maxlen = (2500, 16) if tier == "quick" else (40000, 40)
-    for _ in range(n):
-        yield gen_case(rng, maxlen)
+    n, maxlen = (2500, 16) if tier == "quick" else (24000, 40)
+    for i in range(n):
+        if i % 3 == 2:
+            yield gen_held_case(rng, maxlen)
+        else:
+            yield gen_case(rng, maxlen)
 
 
 def neighbourhood(case, step, rng):
@@ -333,6 +584,29 @@ def neighbourhood(case, step, rng):
 # model side
 # ---------------------------------------------------------------------------------------
 
+def replay_known(entry):
+    """F116: the witness of `held_gone_leaves_violated` on the real code"""
+    if entry.get("signature") != "C12/held-deleted/releaseLayer/stayed-when-gone/coalesced":
+        return False
+    from defcon import Font
+    font = Font()
+    layer = font.layers.defaultLayer
+    keep = [font, layer]
+    for n in ("a", "b", "c"):
+        keep.append(layer.newGlyph(n))
+    layer.holdNotifications()
+    del layer["b"]
+    keep.append(layer.newGlyph("b"))
+    del layer["b"]
+    layer.releaseHeldNotifications()
+    stale = "b" in font.glyphOrder and not any("b" in l for l in font.layers)
+    # ... and without the repetition the name leaves (the partial theorem's side)
+    layer.holdNotifications()
+    del layer["c"]
+    layer.releaseHeldNotifications()
+    return stale and "c" not in font.glyphOrder and bool(keep)
+
+
 def _lib(v):
     return opt(None if v is None else list(v))
 
@@ -345,8 +619,16 @@ def enc_op(op):
         return [Atom(k), op[1], op[2], op[3]]
     if k in ("setOrder", "setLib"):
         return [Atom(k), _lib(op[1])]
-    if k in ("newLayer", "delLayer"):
+    if k in ("newLayer", "delLayer", "setDefault", "holdLayer", "releaseLayer", "disableLayer", "enableLayer"):
         return [Atom(k), op[1]]
+    if k == "renameLayer":
+        return [Atom(k), op[1], op[2]]
+    if k == "setLayerOrder":
+        return [Atom(k), list(op[1])]
+    if k in ("fontNewGlyph", "fontInsertGlyph", "fontDelGlyph"):
+        return [Atom(k), op[1]]
+    if k in ("holdFont", "releaseFont"):
+        return [Atom(k)]
     if k == "save":
         return [Atom("save")]
     raise ValueError(op)
@@ -355,9 +637,9 @@ def enc_op(op):
 def model_lines(case):
     init = case.get("init")
     if init is None:
-        first = [Atom("init"), [["public.default", []]], _lib(None)]
+        first = [Atom("init"), [["public.default", []]], _lib(None), opt("public.default")]
     else:
-        first = [Atom("init"), [[n, list(gs)] for n, gs in init["layers"]], _lib(init["lib"])]
+        first = [Atom("init"), [[n, list(gs)] for n, gs in init["layers"]], _lib(init["lib"]), opt(init["default"])]
     return [first] + [enc_op(op) for op in case["ops"]]
 
 
@@ -439,13 +721,18 @@ class World(object):
         else:
             raise ValueError(origin)
         self.other = None
+        self.restructured = False    # the default layer was re-assigned or a layer renamed: nothing is saved any more
 
     def observe(self, font=None):
         f = font or self.font
         order = f.glyphOrder
         lib = f.lib.get(KEY)
-        layers = [(l.name, sorted(l.keys())) for l in f.layers]
-        return order, lib, layers
+        c = f.dispatcher
+        layers = [(l.name, sorted(l.keys()), bool(c.areNotificationsHeld(observable=l)),
+                   bool(c.areNotificationsDisabled(observable=l))) for l in f.layers]
+        d = f.layers.defaultLayer
+        default = d.name if any(l is d for l in f.layers) else None
+        return order, lib, layers, default, sorted(f.keys())
 
     def source(self, spec):
         from defcon import Glyph
@@ -517,7 +804,44 @@ class World(object):
             if op[1] in font.layers:
                 self.keep.append(font.layers[op[1]])
             del font.layers[op[1]]
+        elif k == "renameLayer":
+            font.layers[op[1]].name = op[2]
+            self.restructured = True
+        elif k == "setLayerOrder":
+            font.layers.layerOrder = list(op[1])
+        elif k == "setDefault":
+            font.layers.defaultLayer = font.layers[op[1]]
+            self.restructured = True
+        elif k == "fontNewGlyph":
+            self.keep.append(font.newGlyph(op[1]))
+        elif k == "fontInsertGlyph":
+            _, g, spec = op
+            src = self.source(spec)
+            self.keep.append(src)
+            self.keep.append(font.insertGlyph(src, name=g))
+        elif k == "fontDelGlyph":
+            d = font.layers.defaultLayer
+            if op[1] in d._glyphs:
+                self.keep.append(d._glyphs[op[1]])
+            del font[op[1]]
+        elif k == "holdLayer":
+            font.layers[op[1]].holdNotifications(note="C12 harness")
+        elif k == "releaseLayer":
+            font.layers[op[1]].releaseHeldNotifications()
+        elif k == "disableLayer":
+            font.layers[op[1]].disableNotifications()
+        elif k == "enableLayer":
+            font.layers[op[1]].enableNotifications()
+        elif k == "holdFont":
+            font.holdNotifications(note="C12 harness")
+        elif k == "releaseFont":
+            font.releaseHeldNotifications()
         elif k == "save":
+            d = font.layers.defaultLayer
+            if not any(l is d for l in font.layers):
+                return None          # the default layer was deleted: ufoLib refuses to write such a font
+            if self.restructured:
+                return None          # which layer may be the default one of a UFO, and under which name, is not C12's subject
             if font.path is None:
                 self.nsave += 1
                 font.save(os.path.join(self.tmp, "saved%d.ufo" % self.nsave))
@@ -532,9 +856,11 @@ class World(object):
 
 
 def _enc_obs(res, obs):
-    order, lib, layers = obs
+    order, lib, layers, default, keys = obs
     return [res, [Atom("order")] + list(order), opt(None if lib is None else list(lib)),
-            [Atom("layers")] + [[n, [Atom("set")] + list(gs)] for n, gs in layers]]
+            [Atom("layers")] + [[n, [Atom("set")] + list(gs), Atom("true" if h else "false"), Atom("true" if d else "false")]
+                                for n, gs, h, d in layers],
+            opt(default), [Atom("keys"), [Atom("set")] + list(keys)]]
 
 
 def run_impl(case):
@@ -548,7 +874,8 @@ def run_impl(case):
             # read of lib.plist itself.  The start observation is what ufoLib wrote to disk.
             init = case["init"]
             before = (list(init["lib"] or []), None if init["lib"] is None else list(init["lib"]),
-                      [(l.name, sorted(l.keys())) for l in w.font.layers])
+                      [(l.name, sorted(l.keys()), False, False) for l in w.font.layers], init["default"],
+                      sorted(w.font.layers[init["default"]].keys()))
         else:
             before = w.observe()
         outs.append(_enc_obs(Atom("ok"), before))
@@ -559,6 +886,8 @@ def run_impl(case):
                 reopened = w.do(op)
             except KeyError:
                 err = "KeyError"
+            except AssertionError:
+                err = "AssertionError"
             except Exception as e:     # anything else is unexpected: shows as a divergence
                 err = type(e).__name__
             after = w.observe()
@@ -587,24 +916,44 @@ def run_impl(case):
 # ---------------------------------------------------------------------------------------
 
 def _has(layers, name, g):
-    for n, gs in layers:
-        if n == name:
-            return g in gs
+    for l in layers:
+        if l[0] == name:
+            return g in l[1]
     return False
 
 
 def _anywhere(layers, g):
-    return any(g in gs for _, gs in layers)
+    return any(g in l[1] for l in layers)
+
+
+def _state(layers, name):
+    """(held?, disabled?) of a layer in an observation; None when there is no such layer"""
+    for l in layers:
+        if l[0] == name:
+            return l[2], l[3]
+    return None
 
 
 def _without(order, names):
     return [x for x in order if x not in names]
 
 
+class _Block(object):
+    """what happened on one layer since its notifications became held (oracle-side record, built from the
+    operations the implementation accepted and from the implementation's own observations)"""
+
+    def __init__(self):
+        self.notes = []          # ("added", g) / ("deleted", g) / ("renamed", old, new), in posting order
+        self.other = set()       # names spoken about, while the block was open, by anything but these notes
+        self.disabled = False    # the layer was disabled at some moment of the block
+        self.moved = False       # the layer was renamed / the block cannot be followed
+
+
 def oracle(case, trace):
     viol = []
     stats = {}
     nontrivial = False
+    blocks = {}                  # layer name -> _Block, for layers whose notifications are held
 
     def bump(k):
         stats[k] = stats.get(k, 0) + 1
@@ -617,12 +966,26 @@ def oracle(case, trace):
     for i, t in enumerate(trace):
         op, err = t["op"], t["err"]
         k = op[0]
-        ob, lb, layb = t["before"]
-        oa, la, laya = t["after"]
+        ob, lb, layb, defb = t["before"][:4]
+        oa, la, laya, defa = t["after"][:4]
         bump("op." + k)
         if err:
             bump("err.%s.%s" % (k, err))
         n0 = len(viol)
+
+        # font-level glyph operations are operations on the default layer (nothing is demanded when that layer
+        # is no longer a layer of the font)
+        if k in ("fontNewGlyph", "fontInsertGlyph", "fontDelGlyph"):
+            if defb is None:
+                bump("fontop.detached-default")
+                if list(oa) != list(ob):
+                    bad("others-keep-order", k + "/detached-default", i, t, "an operation on a layer the font no longer has changed the order")
+                if len(viol) > n0:
+                    break
+                continue
+            k = k[4].lower() + k[5:]
+            op = [k, defb] + list(op[1:])
+            bump("fontop.default")
 
         # stored in and read from the font lib ------------------------------------------------
         if list(oa) != list(la if la is not None else []):
@@ -640,19 +1003,67 @@ def oracle(case, trace):
             if list(t["reopened"][0]) != list(oa):
                 bad("stored", "save/reopen", i, t, "order read from the saved lib is %r" % (t["reopened"][0],))
         if k in ("setOrder", "setLib"):
+            for b in blocks.values():
+                b.other |= set(op[1] or [])
+                b.other |= set(ob)
             if len(viol) > n0:
                 break
             continue
 
+        ok = not err
+        L = op[1] if k in ("newGlyph", "insertGlyph", "delGlyph", "rename") else None
+        st = _state(layb, L) if L is not None else None
+        held = bool(st and st[0])
+        disabled = bool(st and st[1])
+        glyphop = ok and L is not None and not (k == "rename" and op[2] == op[3])
+
+        # bookkeeping of held blocks -------------------------------------------------------------
+        for n, b in blocks.items():
+            s2 = _state(layb, n)
+            if s2 is None or s2[1]:
+                b.disabled = b.disabled or bool(s2 and s2[1])
+        if ok and L is not None:
+            for n, b in blocks.items():
+                if not (n == L and glyphop and held and not disabled):
+                    b.other |= {x for x in op[2:4] if isinstance(x, str)}
+        if glyphop and held and not disabled and L in blocks:
+            b = blocks[L]
+            if k in ("newGlyph", "insertGlyph"):
+                b.notes.append(("added", op[2]))
+            elif k == "delGlyph":
+                b.notes.append(("deleted", op[2]))
+            else:
+                b.notes.append(("renamed", op[2], op[3]))
+        if glyphop and disabled and L in blocks:
+            blocks[L].disabled = True
+        if ok and k == "holdLayer" and _state(layb, op[1]) and not _state(layb, op[1])[0]:
+            blocks[op[1]] = _Block()
+            blocks[op[1]].disabled = _state(layb, op[1])[1]
+        if ok and k == "disableLayer" and op[1] in blocks:
+            blocks[op[1]].disabled = True
+        if ok and k == "delLayer":
+            blocks.pop(op[1], None)
+            for b in blocks.values():
+                b.other |= {g for l in layb if l[0] == op[1] for g in l[1]}
+        if ok and k == "renameLayer" and op[1] in blocks:
+            blocks[op[2]] = blocks.pop(op[1])
+        released = None
+        if ok and k == "releaseLayer":
+            sa = _state(laya, op[1])
+            if sa is not None and not sa[0]:
+                released = blocks.pop(op[1], None)
+                if released is not None and sa[1]:
+                    released.disabled = True
+
         # which names may this operation touch ---------------------------------------------------
         touched = set()
-        ok = not err
-        if ok and k in ("newGlyph", "insertGlyph", "delGlyph"):
-            touched = {op[2]}
-        elif ok and k == "rename":
-            touched = {op[2], op[3]}
+        if glyphop and not held and not disabled:
+            touched = {x for x in op[2:4] if isinstance(x, str)} if k == "rename" else {op[2]}
         elif ok and k == "delLayer":
-            touched = {g for n, gs in layb if n == op[1] for g in gs}   # the property says nothing here
+            touched = {g for l in layb if l[0] == op[1] for g in l[1]}   # the property says nothing here
+        elif released is not None:
+            # whatever was queued while the layer was not disabled (a release on a disabled layer drops it all)
+            touched = {x for nt in released.notes for x in nt[1:]}
 
         # the order never gains duplicates ---------------------------------------------------------
         for n in set(oa):
@@ -663,7 +1074,17 @@ def oracle(case, trace):
         if _without(oa, touched) != _without(ob, touched):
             bad("others-keep-order", k, i, t, "untouched names changed: %r -> %r" % (_without(ob, touched), _without(oa, touched)))
 
-        if ok and k in ("newGlyph", "insertGlyph"):
+        # a name leaves the order only when no layer has it any more, and is appended only when it was absent: so
+        # the names that were in the order and that some layer has after the operation stand as they stood
+        if glyphop and not held and not disabled:
+            kept = {n for n in ob if _anywhere(laya, n)}
+            if [x for x in oa if x in kept] != [x for x in ob if x in kept]:
+                bad("kept-in-place", k, i, t, "names that were in the order and that some layer still has left their place: %r -> %r" % (
+                    [x for x in ob if x in kept], [x for x in oa if x in kept]))
+
+        if glyphop and (held or disabled):
+            bump("glyphop." + ("disabled" if disabled else "held"))
+        elif ok and k in ("newGlyph", "insertGlyph"):
             L, g = op[1], op[2]
             site = k
             if g in ob:
@@ -722,6 +1143,100 @@ def oracle(case, trace):
                     nontrivial = True
                 if new not in ob and list(oa) != list(ob) + [new]:
                     bad("renamed", "rename/not-appended", i, t, "new name must be appended")
+        elif released is not None:
+            if released.disabled:
+                bump("release.disabled")
+            else:
+                if _held_release(released, op[1], ob, oa, laya, i, t, bad, bump):
+                    nontrivial = True
         if len(viol) > n0:
             break
     return viol[:3], stats, nontrivial
+
+
+def _held_release(b, L, ob, oa, laya, i, t, bad, bump):
+    """the property's sentences for a block of operations whose notifications were held, read with respect to
+    the state at the release (which is when the font learns about them): `ob`/`oa` = order just before / after
+    the release, `laya` = the layers at the release"""
+    notes = b.notes
+    bump("release.notes.%s" % (len(notes) if len(notes) < 6 else "6+"))
+    coalesced = len(set(notes)) < len(notes)
+    if coalesced:
+        bump("release.coalesced")
+    suffix = "/coalesced" if coalesced else ""
+    created = [nt[-1] for nt in notes if nt[0] in ("added", "renamed")]
+    removed = [nt[1] for nt in notes if nt[0] in ("deleted", "renamed")]
+    # created (or renamed to) in the block and there at the release: in the order
+    for g in created:
+        if _has(laya, L, g) and g not in oa:
+            bad("held-created", "releaseLayer/missing", i, t, "%r was created under the hold, exists at the release, and is not in the order" % g)
+            break
+    # a name leaves the order only if no layer still has it
+    for n in ob:
+        if n not in oa and _anywhere(laya, n):
+            bad("held-deleted", "releaseLayer/left-while-kept", i, t, "%r left the order although a layer has it at the release" % n)
+            break
+    # ... so the names that were in the order and that some layer has at the release stand as they stood
+    kept = {n for n in ob if _anywhere(laya, n)}
+    if [x for x in oa if x in kept] != [x for x in ob if x in kept]:
+        bad("held-deleted", "releaseLayer/moved-while-kept", i, t,
+            "names that some layer has at the release left their place in the order: %r -> %r" % (
+                [x for x in ob if x in kept], [x for x in oa if x in kept]))
+    # ... and it does leave when it was deleted (or renamed away) under the hold and is gone at the release
+    for n in removed:
+        if not _anywhere(laya, n) and ob.count(n) <= 1 and n in oa:
+            bump("release.stale" + suffix)
+            bad("held-deleted", "releaseLayer/stayed-when-gone" + suffix, i, t,
+                "%r was deleted under the hold, no layer has it at the release, and it is in the order" % n)
+            break
+    # renaming: a glyph that went n0 -> … -> n1 by renames only (names not spoken about otherwise) has its new name
+    # where the old one stood
+    chains = _chains(notes)
+    for n0, n1, path in chains:
+        if any(x in b.other for x in path):
+            continue
+        if ob.count(n0) != 1 or any(x in ob for x in path if x != n0):
+            continue
+        if any(_anywhere(laya, x) for x in path if x != n1) or not _has(laya, L, n1):
+            continue
+        bump("release.chain.%d" % (len(path) - 1))
+        others = set(removed) | set(created)
+        want = [(n1 if x == n0 else x) for x in ob if x == n0 or x not in others]
+        got = [x for x in oa if x == n1 or x not in others]
+        if want != got:
+            bad("held-renamed", "releaseLayer/position", i, t,
+                "%r was renamed to %r under the hold (via %r): the new name is not where the old one stood" % (n0, n1, list(path)))
+            break
+    return len(notes) >= 2
+
+
+def _mentions(notes, x):
+    return sum(1 for nt in notes for y in nt[1:] if y == x)
+
+
+def _chains(notes):
+    """[(first name, last name, {name: number of mentions the chain itself accounts for})] for every maximal
+    chain of renames a -> b -> … in the notes, each name of which is mentioned by the chain's renames only"""
+    ren = [(nt[1], nt[2]) for nt in notes if nt[0] == "renamed"]
+    starts = {o for o, _ in ren} - {n for _, n in ren}
+    out = []
+    for s0 in sorted(starts):
+        path = [s0]
+        cur = s0
+        used = set()
+        while True:
+            nxt = [j for j, (o, n) in enumerate(ren) if o == cur and j not in used]
+            if not nxt:
+                break
+            used.add(nxt[0])
+            cur = ren[nxt[0]][1]
+            if cur in path:
+                path = None
+                break
+            path.append(cur)
+        if not path or len(path) < 2:
+            continue
+        counts = {x: (1 if x in (path[0], path[-1]) else 2) for x in path}
+        if all(_mentions(notes, x) == c for x, c in counts.items()):
+            out.append((path[0], path[-1], counts))
+    return out
